@@ -116,6 +116,7 @@ theorem exec_next_le (env : Env) (fs : FS) (c : Call) : fs.next ≤ (exec env fs
       exact Nat.le_of_eq (FS.mkdirLevels_next _ _ _ _ hm).symm
     · exact Nat.le_refl _
   case mkTemp dir => split <;> simp
+  case mkTempLink dir t => split <;> simp
   case copyFile s d =>
     split
     · exact Nat.le_of_eq (copyTo_next _ _ _).symm
